@@ -19,7 +19,7 @@ OptChoices1 == { AllUnset, [AllUnset EXCEPT !.kw_only = "T"], [AllUnset EXCEPT !
                  [AllUnset EXCEPT !.extra = "T"], [AllUnset EXCEPT !.frozen = "F"],
                  [AllUnset EXCEPT !.inf = <<"struct", "tuple">>, !.outf = "tuple"] }
 OptChoices2 == { AllUnset, [AllUnset EXCEPT !.kw_only = "T"], [AllUnset EXCEPT !.extra = "F"], [AllUnset EXCEPT !.inf = <<"struct">>],
-                 [AllUnset EXCEPT !.kw_only = "F"] }
+                 [AllUnset EXCEPT !.kw_only = "F"], [AllUnset EXCEPT !.frozen = "T"] }
 
 Body1 == { [gen |-> <<>>, own |-> <<F("s_x", TInt, NoDef, "F"), F("s_y", TFloat, Def(MkFloat(<<3, 2>>)), "F")>>],
            [gen |-> <<>>, own |-> <<F("s_x", TInt, Def(MkInt(1)), "F"), F("s_y", TStr, Def(MkStr("s_a")), "T")>>],
